@@ -102,12 +102,18 @@ class Backend:
         else:
             pp = self.path_of.get(parent) if parent else None
             m = _BRANCH_RE.match(name)
+            prow = self.rows.get(parent) if parent else None
             if m and pp is not None:
                 p = pp + ("b" + m.group(2),)
             elif pp is not None and name.endswith("create callback id"):
                 p = pp + (1,)
             elif pp is not None and name.endswith("submitter"):
                 p = pp + (2,)
+            # fallbacks that do not depend on how the SDK words the names of the operations it creates itself
+            elif pp is not None and u.get("SubType") in ("ParallelBranch", "MapIteration") and re.search(r"(\d+)$", name):
+                p = pp + ("b" + re.search(r"(\d+)$", name).group(1),)
+            elif pp is not None and prow is not None and prow.get("SubType") == "WaitForCallback":
+                p = pp + ((1,) if u.get("Type") == "CALLBACK" else (2,))
         if p is None:
             self.unmapped.append({"id": i, "name": name, "parent": parent, "type": u.get("Type")})
             p = ("?", len(self.unmapped))
